@@ -453,8 +453,8 @@ class Table(JupyterMixin):
             ratios = [col.ratio or 0 for col in columns if col.flexible]
             if any(ratios):
                 fixed_widths = [
-                    0 if column.flexible else _range.maximum
-                    for _range, column in zip(width_ranges, columns)
+                    0 if column.flexible else _width
+                    for _width, column in zip(widths, columns)
                 ]
                 flex_minimum = [
                     (column.width or 1) + get_padding_width(column._index)
